@@ -57,6 +57,8 @@ enum Op {
     Get(u64, u64),
     Search(u64, V, u64),
     SearchMetric(V, u64, u64),
+    /// (collection, query, k, tag value b, strategy 0 auto / 1 pre / 2 post)
+    SearchFiltered(u64, V, u64, u64, u64),
 }
 impl Op {
     fn coq(&self) -> String {
@@ -73,6 +75,7 @@ impl Op {
             Op::Get(c, k) => format!("OGet {c} {k}"),
             Op::Search(c, q, k) => format!("OSearch {c} {} {k}", vcoq(q)),
             Op::SearchMetric(q, k, m) => format!("OSearchMetric {} {k} {m}", vcoq(q)),
+            Op::SearchFiltered(c, q, k, b, st) => format!("OSearchFiltered {c} {} {k} {b} {st}", vcoq(q)),
         }
     }
 }
@@ -135,7 +138,7 @@ impl Env {
             Op::Store(c, k, v) => Self::unit(e.store_in_collection(&cname(*c), &key(*k), fl(v))),
             Op::StoreMeta(c, k, v) => {
                 let mut md = HashMap::new();
-                md.insert("tag".to_string(), TensorValue::Scalar(tensor_store::ScalarValue::String("x".to_string())));
+                md.insert("tag".to_string(), TensorValue::Scalar(tensor_store::ScalarValue::String(format!("t{}", k % 2))));
                 if *c == 0 {
                     Self::unit(e.store_embedding_with_metadata(&key(*k), fl(v), md))
                 } else {
@@ -195,7 +198,43 @@ impl Env {
             Op::Search(0, q, k) => Self::res(e.search_similar(&fl(q), *k as usize)),
             Op::Search(c, q, k) => Self::res(e.search_in_collection(&cname(*c), &fl(q), *k as usize)),
             Op::SearchMetric(q, k, m) => Self::res(e.search_similar_with_metric(&fl(q), *k as usize, metric_of(*m))),
+            Op::SearchFiltered(c, q, k, b, st) => {
+                let filter = vector_engine::FilterCondition::Eq("tag".to_string(), vector_engine::FilterValue::String(format!("t{b}")));
+                let cfg = match st {
+                    1 => Some(vector_engine::FilteredSearchConfig::pre_filter()),
+                    2 => Some(vector_engine::FilteredSearchConfig::post_filter()),
+                    _ => None,
+                };
+                if *c == 0 {
+                    Self::res(e.search_similar_filtered(&fl(q), *k as usize, &filter, cfg))
+                } else {
+                    Self::res(e.search_filtered_in_collection(&cname(*c), &fl(q), *k as usize, &filter, cfg))
+                }
+            }
         }
+    }
+    /// the "tag" metadata field of every stored key, through the public API
+    fn tdump(&self) -> Vec<(u64, Vec<(u64, u64)>)> {
+        let tagval = |m: &HashMap<String, TensorValue>| match m.get("tag") {
+            Some(TensorValue::Scalar(tensor_store::ScalarValue::String(s))) => s.trim_start_matches('t').parse::<u64>().ok(),
+            _ => None,
+        };
+        let mut out = vec![];
+        for c in 0..self.ncoll {
+            let mut rows: Vec<(u64, u64)> = if c == 0 {
+                self.eng.list_keys().iter().filter_map(|k| self.eng.get_metadata(k).ok().and_then(|m| tagval(&m)).map(|t| (kid(k), t))).collect()
+            } else {
+                let cn = cname(c);
+                self.eng
+                    .list_collection_keys(&cn)
+                    .iter()
+                    .filter_map(|k| self.eng.get_collection_metadata(&cn, k).ok().and_then(|m| tagval(&m)).map(|t| (kid(k), t)))
+                    .collect()
+            };
+            rows.sort();
+            out.push((c, rows));
+        }
+        out
     }
     /// read-back of every collection in play through the public API, keys ascending
     fn dump(&self) -> Vec<(u64, Vec<(u64, V)>)> {
@@ -259,7 +298,7 @@ fn run_trace(ncoll: u64, ops: &[Op]) -> (String, bool) {
             }
         }
         match op {
-            Op::Search(c, q, _) => {
+            Op::Search(c, q, _) | Op::SearchFiltered(c, q, _, _, _) => {
                 queries.insert((0, q.clone()));
                 queries.insert((10, q.clone()));
                 if built.get(c).copied().unwrap_or(false) {
@@ -276,7 +315,9 @@ fn run_trace(ncoll: u64, ops: &[Op]) -> (String, bool) {
             }
             _ => {}
         }
-        cobs.push(format!("({}, {})", r.coq(), dump_coq(&d)));
+        let td = env.tdump();
+        let tdc = list(td.iter().map(|(c, rows)| format!("({c}, {})", list(rows.iter().map(|(k, t)| format!("({k}, {t})"))))));
+        cobs.push(format!("({}, {}, {})", r.coq(), dump_coq(&d), tdc));
     }
     let mut tbl = vec![];
     for (m, q) in &queries {
@@ -332,7 +373,7 @@ fn gen_dim(r: &mut Rng) -> usize {
 }
 
 fn gen_ops(r: &mut Rng, ncoll: u64, len: usize, dist: &mut Dist) -> Vec<Op> {
-    let nkeys = r.range(3, 7);
+    let nkeys = if r.chance(1, 4) { r.range(8, 14) } else { r.range(3, 7) };
     let main_dim = gen_dim(r);
     let mut pool: Vec<V> = vec![]; // stored vectors, for duplicates and exact-match queries
     let mut ops = vec![];
@@ -395,9 +436,12 @@ fn gen_ops(r: &mut Rng, ncoll: u64, len: usize, dist: &mut Dist) -> Vec<Op> {
         } else {
             let q = if !pool.is_empty() && r.chance(1, 3) { r.pick(&pool).clone() } else { gen_vec(r, dim, dist) };
             let kk = *r.pick(&[1u64, 1, 2, 3, 5, 10, 0]);
-            if k < 93 {
+            if k < 88 {
                 ops.push(Op::Search(coll(r), q, kk));
                 dist.hit("op.search");
+            } else if k < 95 {
+                ops.push(Op::SearchFiltered(coll(r), q, kk, r.below(2), r.below(3)));
+                dist.hit("op.search_filtered");
             } else {
                 ops.push(Op::SearchMetric(q, kk, r.below(3)));
                 dist.hit("op.search_metric");
@@ -446,6 +490,33 @@ fn main() {
         let mut c5 = base.clone();
         c5.extend([Op::Delete(0, 0), Op::Search(0, q.clone(), 5), Op::Build(0), Op::Store(0, 2, z.clone()), Op::Search(0, q.clone(), 5)]);
         corpus.push((c5, "corpus control delete_embedding / store_embedding"));
+        // post-filter shortfall: four close vectors tagged t0 (even keys), one far vector tagged t1
+        let f = |x: f32, y: f32| vec![b32(x), b32(y)];
+        corpus.push((
+            vec![
+                Op::StoreMeta(0, 0, f(1.0, 0.0)),
+                Op::StoreMeta(0, 2, f(1.0, 0.1)),
+                Op::StoreMeta(0, 4, f(1.0, 0.2)),
+                Op::StoreMeta(0, 6, f(1.0, 0.3)),
+                Op::StoreMeta(0, 1, f(0.0, 1.0)),
+                Op::SearchFiltered(0, f(1.0, 0.0), 1, 1, 0),
+                Op::SearchFiltered(0, f(1.0, 0.0), 1, 1, 1),
+                Op::SearchFiltered(0, f(1.0, 0.0), 1, 1, 2),
+            ],
+            "corpus F-C06-postfilter default collection (auto / pre / post)",
+        ));
+        corpus.push((
+            vec![
+                Op::StoreMeta(1, 0, f(1.0, 0.0)),
+                Op::StoreMeta(1, 2, f(1.0, 0.1)),
+                Op::StoreMeta(1, 4, f(1.0, 0.2)),
+                Op::StoreMeta(1, 6, f(1.0, 0.3)),
+                Op::StoreMeta(1, 1, f(0.0, 1.0)),
+                Op::SearchFiltered(1, f(1.0, 0.0), 1, 1, 0),
+                Op::SearchFiltered(1, f(1.0, 0.0), 1, 1, 2),
+            ],
+            "corpus F-C06-postfilter named collection",
+        ));
         for (ops, label) in corpus {
             let (t, _) = run_trace(2, &ops);
             trace.push(&t, &format!("{label} ops={:?}", ops), true);
@@ -453,14 +524,39 @@ fn main() {
         }
     }
 
-    let ntrace = args.budget(500, 15000);
+    let ntrace = args.budget(500, 8000);
     for _ in 0..ntrace {
         let ncoll = *rng.pick(&[1u64, 2, 2, 3]);
         let len = rng.range(4, 26) as usize;
         let ops = gen_ops(&mut rng, ncoll, len, &mut dist);
         let (t, cached) = run_trace(ncoll, &ops);
         dist.hit(if cached { "trace.search_after_build" } else { "trace.exact_only" });
-        trace.push(&t, &format!("ncoll={ncoll} ops={:?}", ops), ops.iter().any(|o| matches!(o, Op::Search(..) | Op::SearchMetric(..))));
+        trace.push(&t, &format!("ncoll={ncoll} ops={:?}", ops), ops.iter().any(|o| matches!(o, Op::Search(..) | Op::SearchMetric(..) | Op::SearchFiltered(..))));
+    }
+
+    // ---- known finding reserved-default-name (implementation only): a named collection called
+    // "_default" shares the cache slot of the default collection
+    let mut hits = Hits::default();
+    let mut reserved = CaseWriter::new(&args.out, "reserved");
+    {
+        let e = VectorEngine::new();
+        e.store_embedding("a", vec![1.0, 0.0, 0.0]).unwrap();
+        e.store_embedding("b", vec![0.0, 1.0, 0.0]).unwrap();
+        e.store_in_collection("_default", "x", vec![0.0, 0.0, 1.0]).unwrap();
+        e.build_and_cache_index(HNSWConfig::default()).unwrap();
+        let live: Vec<String> = e.list_collection_keys("_default");
+        let r = e.search_in_collection("_default", &[1.0, 0.1, 0.0], 5);
+        let returned: Vec<String> = r.map(|l| l.into_iter().map(|x| x.key).collect()).unwrap_or_default();
+        let foreign: Vec<&String> = returned.iter().filter(|k| !live.contains(k)).collect();
+        reserved.push("0", &format!("named collection \"_default\": live keys {:?}, search returned {:?}", live, returned), true);
+        dist.hit("reserved.default_name");
+        if !foreign.is_empty() {
+            hits.push(
+                "reserved-default-name",
+                &format!("search_in_collection(\"_default\") returned keys {:?} that are not in that collection (its keys: {:?})", foreign, live),
+                json!({"ops": ["store_embedding a [1,0,0]", "store_embedding b [0,1,0]", "store_in_collection _default x [0,0,1]", "build_and_cache_index", "search_in_collection _default [1,0.1,0] 5"]}),
+            );
+        }
     }
 
     // ---- representation round trip on the real SparseVector
@@ -483,13 +579,52 @@ fn main() {
         sparse.push(&format!("({}, {})", vcoq(&vb), vcoq(&bb)), &format!("v={:?} back={:?}", v, back), v.iter().any(|x| *x != 0.0));
     }
 
+    // ---- the real HNSW index, directly: 20-200 nodes, dims 2-8, every metric's default (cosine)
+    let mut hnsw = CaseWriter::new(&args.out, "hnsw");
+    let nh = args.budget(60, 1500);
+    for _ in 0..nh {
+        let nmax = if rng.chance(1, 4) { 200 } else { 40 };
+        let n = rng.range(1, nmax) as usize;
+        let dim = rng.range(2, 8) as usize;
+        let index = HNSWIndex::with_config(HNSWConfig::default());
+        let mut vs: Vec<Vec<f32>> = vec![];
+        for _ in 0..n {
+            let v: Vec<f32> = if rng.chance(1, 10) && !vs.is_empty() {
+                rng.pick(&vs).clone() // duplicates
+            } else {
+                (0..dim).map(|_| (rng.below(2001) as f32 - 1000.0) / 250.0).collect()
+            };
+            index.insert(v.clone());
+            vs.push(v);
+        }
+        let q: Vec<f32> = (0..dim).map(|_| (rng.below(2001) as f32 - 1000.0) / 250.0).collect();
+        let k = *rng.pick(&[1usize, 3, 10, 50, 300]);
+        let ef = *rng.pick(&[1usize, 10, 50, 200]);
+        let hits = if rng.chance(1, 2) { index.search(&q, k) } else { index.search_with_ef(&q, k, ef) };
+        let truth: Vec<u32> = vs
+            .iter()
+            .map(|v| {
+                let d = EmbeddingStorage::from(v.clone()).distance_dense(&q, HNSWDistanceMetric::Cosine);
+                HNSWDistanceMetric::Cosine.to_similarity(d).to_bits()
+            })
+            .collect();
+        dist.hit(&format!("hnsw.n.{}", if n < 10 { "lt10" } else if n < 50 { "lt50" } else { "ge50" }));
+        let term = format!(
+            "({k}, {}, {})",
+            list(truth.iter().map(|x| format!("{x}"))),
+            list(hits.iter().map(|(i, s)| format!("({i}, {})", s.to_bits())))
+        );
+        hnsw.push(&term, &format!("n={n} dim={dim} k={k} ef={ef} hits={}", hits.len()), hits.len() > 1);
+    }
+
     write_meta(
         &args.out,
         json!({
             "property": "C06", "seed": args.seed, "tier": args.tier,
-            "kinds": [trace.summary(), sparse.summary()],
+            "kinds": [trace.summary(), sparse.summary(), reserved.summary(), hnsw.summary()],
             "distribution": dist.json(),
-            "nontrivial_rule": "trace: contains at least one search; sparse: some component is non-zero",
+            "hits": hits.0,
+            "nontrivial_rule": "trace: contains at least one search; sparse: some component is non-zero; hnsw: more than one hit returned",
         }),
     );
 }
